@@ -32,7 +32,10 @@ YTOOLS = "pyyeti/ytools.py"
 # ====================================================================================================================== helpers
 def helpers_of(m):
     """private module-level functions: followed (evaluated on the argument values) when a writer calls them"""
-    return {q: f for q, f in m.funcs.items() if "." not in q and "#" not in q and q.startswith("_") and not q.startswith("__")}
+    h = m.__dict__.get("_c13_helpers")
+    if h is None:
+        h = m.__dict__["_c13_helpers"] = {q: f for q, f in m.funcs.items() if "." not in q and "#" not in q and q.startswith("_") and not q.startswith("__")}
+    return h
 
 
 def publics(m, prefix=""):
@@ -43,6 +46,9 @@ def publics(m, prefix=""):
 def reach(m, fn):
     """the functions whose code belongs to `fn`: its nested functions and the private module-level helpers it refers to (called, passed as a
     value, wrapped in functools.partial), transitively.  Extracting or inlining a helper does not change the union of these bodies."""
+    cache = m.__dict__.setdefault("_c13_reach", {})
+    if id(fn) in cache:
+        return cache[id(fn)]
     hs = helpers_of(m)
     out, stack, seen = [], [fn], {id(fn)}
     while stack:
@@ -57,6 +63,7 @@ def reach(m, fn):
                 seen.add(id(g))
                 out.append(g)
                 stack.append(g)
+    cache[id(fn)] = out
     return out
 
 
@@ -265,8 +272,27 @@ def _string_roots(fn):
     return list(roots.values())
 
 
+def _has_text(v):
+    """a string, or a literal table (tuple / dict) with strings in it"""
+    if isinstance(v, S):
+        return True
+    if isinstance(v, tuple) and v[:1] == ("tuple",):
+        return any(_has_text(x) for x in v[1])
+    if isinstance(v, tuple) and v[:1] == ("dict",):
+        return any(_has_text(x) for _, x in v[1])
+    return False
+
+
 def _float_specs(v, out, node):
-    """(Spec, role or None, kind) of every floating-point field in a string value"""
+    """(Spec, role or None, kind) of every floating-point field in a string value (or in the strings of a literal table)"""
+    if isinstance(v, tuple) and v[:1] == ("tuple",):
+        for x in v[1]:
+            _float_specs(x, out, node)
+        return
+    if isinstance(v, tuple) and v[:1] == ("dict",):
+        for _, x in v[1]:
+            _float_specs(x, out, node)
+        return
     if not isinstance(v, S):
         return
     for x in v.p:
@@ -279,7 +305,10 @@ def _float_specs(v, out, node):
         elif x[0] == "lit":
             for it in M.template_items(S((x,))):
                 if it[0] == "field" and it[1] is not None and it[1].type in ("e", "E", "f", "F", "g", "G") and it[1].width is not None:
-                    out.append((it[1], None, None, node))
+                    val = None
+                    for a_ in [a_ for a_ in (it[2] or "").split(".")[1:] if a_ in ("real", "imag")]:
+                        val = ("attr", val if val is not None else ("sym", "term"), a_)         # "{0.real:16.9E}": the real part of the argument
+                    out.append((it[1], None, val, node))
         elif x[0] == "rep":
             _float_specs(x[1], out, node)
 
@@ -381,7 +410,7 @@ def _width_obligations(ctx, once):
             locs = E.locals
             for nm in walk_no_nested(body):
                 if isinstance(nm, ast.Name) and isinstance(nm.ctx, ast.Load) and nm.id in modconsts and nm.id not in locs:
-                    nm._c13_modconst = isinstance(E.module_const(nm.id), S)
+                    nm._c13_modconst = _has_text(E.module_const(nm.id))
             st = _lazy_state(E, body)
             if params is None:
                 for c in walk_no_nested(body):
@@ -1204,6 +1233,10 @@ def _columns(v):
         if v[1] == "T" and isinstance(v[2][0], tuple) and v[2][0][:1] == ("op",) and v[2][0][1] in ("np.vstack", "np.array", "np.asarray", "np.stack", "np.row_stack") \
                 and isinstance(v[2][0][2][0], tuple) and v[2][0][2][0][:1] == ("tuple",):
             return list(v[2][0][2][0][1])
+        if v[1] == "T" and isinstance(v[2][0], tuple) and v[2][0][:2] == ("op", "np.concatenate") and len(v[2][0][2]) == 1 and len(v[2][0]) == 3 \
+                and isinstance(v[2][0][2][0], tuple) and v[2][0][2][0][:1] == ("tuple",) \
+                and all(isinstance(x, tuple) and x[:1] == ("tuple",) and len(x[1]) == 1 for x in v[2][0][2][0][1]):
+            return [x[1][0] for x in v[2][0][2][0][1]]           # np.concatenate(([a], [b])).T : the one-row blocks stacked, transposed
         if v[1] in ("np.column_stack",) and isinstance(v[2][0], tuple) and v[2][0][:1] == ("tuple",):
             return list(v[2][0][1])
         kws = dict(v[3]) if len(v) > 3 else {}
@@ -1787,6 +1820,115 @@ def _line_fields(v):
     return out if walk(v) else None
 
 
+def _objects(v, out=None):
+    """the objects made by calls without arguments (set(), list(), a factory) a value is built from"""
+    out = [] if out is None else out
+    if isinstance(v, tuple):
+        if v[:1] == ("op",) and len(v) > 3 and v[2] == () and v[3] and v[3][0][0] == "@site":
+            if v not in out:
+                out.append(v)
+            return out
+        for x in v:
+            if isinstance(x, (tuple, Lin, S)):
+                _objects(x, out)
+    elif isinstance(v, Lin):
+        for at in v.t:
+            _objects(at, out)
+    elif isinstance(v, S):
+        for part in v.p:
+            for x in part[1:]:
+                if isinstance(x, (tuple, Lin, S)):
+                    _objects(x, out)
+    return out
+
+
+def _dmig_membership(ctx, Er, prim, rd):
+    """np.searchsorted(keys of an index, key) is a position only if the key is in the index.  The reader collects the (grid, dof) pairs of the column
+    cards in one collection and those of the terms in another, and builds the indices from them: the index a key is searched in must be built from
+    the collection keys of that kind were put into - directly, or because that collection was merged into it (form 6: one index for rows and columns).
+    Decided on the calls of each path: a call that is handed a collection together with fields of a card (or items of another collection) puts
+    them there."""
+    v = V()
+    checked = 0
+    for p_ in prim:
+        v.at(p_.node)
+        parts = _complex_parts(p_.d["value"])
+        if parts is None:
+            continue
+        for s in Er.finals:
+            if not any(e is p_ for e in s.events):
+                continue
+            # the calls made before the entry is stored, on the paths compatible with the tests passed on the way to the store (the events of all the
+            # arms of a loop body are kept together: a call made under the opposite outcome of one of those tests is on another path)
+            mine = set(p_.facts)
+            calls = [e for e in s.events if e.kind == "call" and e.seq < p_.seq and not any((t, not pol) in mine for t, pol in e.facts)]
+            puts = {}          # collection -> [values handed over together with it]
+            for e in calls:
+                vals = list(e.d["args"]) + list(e.d["kws"].values()) + ([e.d["recv"]] if e.d.get("recv") is not None else [])
+                objs = [o for a in vals if isinstance(a, tuple) and a[:1] == ("op",) for o in ([a] if a in _objects(a) else [])]
+                for o in objs:
+                    puts.setdefault(o, []).extend(a for a in vals if a is not o and a != o)
+
+            for x in p_.d["index"][1]:
+                if not (isinstance(x, tuple) and x[:2] == ("op", "np.searchsorted") and len(x[2]) >= 2):
+                    continue
+                arr, key = x[2][0], x[2][1]
+                card = parts[0][1]
+                fields = _card_fields(key, card)
+                if not fields:
+                    continue
+                # positions are compared card by card: the first pass over the cards (collecting) and the second (storing) use different loop symbols
+                norm = set()
+                for idx in fields:
+                    a = _affine(idx, Er, p_.loops[-1])
+                    norm.add(a if a is not None else idx)
+                built_from = _objects(arr)
+                if not built_from:
+                    continue
+
+                def flat(vals):
+                    for a in vals:
+                        if isinstance(a, tuple) and a[:1] in (("tuple",), ("set",)):
+                            yield from flat(a[1])
+                        elif isinstance(a, tuple) and a[:1] == ("star",):
+                            yield from flat([a[1]])
+                        else:
+                            yield a
+
+                def fields_of(o):
+                    out = set()
+                    for a in flat(puts.get(o, [])):
+                        if isinstance(a, tuple) and a[:1] == ("elem",) and not isinstance(a[2], tuple) and isinstance(a[1], tuple) and a[1][:1] == ("elem",):
+                            lids = [int(t_[1].rsplit("@L", 1)[1]) for t_ in lin(a[2]).t if isinstance(t_, tuple) and t_[:1] == ("sym",) and "@L" in t_[1]
+                                    and t_[1].rsplit("@L", 1)[1].isdigit()]
+                            af = _affine(a[2], Er, lids[0]) if lids else _affine(a[2], Er, -1)
+                            if af is not None:
+                                out.add(af)
+                    return out
+
+                def reach_(o, seen=()):
+                    """collections whose content ends up in o"""
+                    res = [o]
+                    for a in puts.get(o, []):
+                        for o2 in _objects(a):
+                            if o2 != o and o2 not in seen and o2 not in res:
+                                res.extend(x_ for x_ in reach_(o2, seen + (o,)) if x_ not in res)
+                    return res
+                holders = [o for o in puts if norm <= fields_of(o)]
+                if not holders:
+                    continue            # where keys of this kind are collected is not visible on this path: nothing is concluded
+                checked += 1
+                sources = [o2 for o in built_from for o2 in reach_(o)]
+                if not any(h in sources for h in holders):
+                    v.bad({"key searched": show(key)[:160], "in an index built from": [show(o) + "@" + str(o[3][0][1]) for o in built_from],
+                           "but keys of this kind are collected in": [show(o) + "@" + str(o[3][0][1]) for o in holders],
+                           "consequence": "a key that is not in the index gets the position of a neighbour (silently)"}, p_.node)
+    if v.v is True and checked == 0:
+        v.unknown("no key whose collection is visible")
+    v.report(ctx, "rddmig: the index a (grid, dof) key is searched in is built from the collection keys of that kind were put into (form 6: the column "
+                  "DOF are merged into the row DOF)", rd)
+
+
 def _dmig_layout(ctx, E, Er, terms, prim, wd, rd):
     """the fields rddmig takes from a column card are the fields wtdmig puts there: column grid / dof in fields 1, 2 of the card, then one term per
     continuation line - row grid, row dof, real part, imaginary part - i.e. fields F(k+1), F(k+1)+1, +2, +3 for the k-th term with F fields on a
@@ -1812,21 +1954,25 @@ def _dmig_layout(ctx, E, Er, terms, prim, wd, rd):
             continue
         F = 64 // next(iter(widths))
         roles = []
+        numbers = _formatted_numbers(body)
         for _, val in fl[1:]:
             part = _part(val)
             base = val
             while isinstance(base, tuple) and base[:1] == ("attr",) and base[2] in ("real", "imag"):
                 base = base[1]
-            if isinstance(base, tuple) and base[:1] == ("elem",) and M.is_int_const(base[2]) and isinstance(base[1], tuple) and base[1][:1] == ("elem",):
+            if isinstance(base, tuple) and base[:1] == ("elem",) and M.is_int_const(base[2]) and isinstance(base[1], tuple) and base[1][:1] == ("elem",) \
+                    and not any(val is n_ or val == n_ for n_ in numbers):
                 roles.append(("label", M.ival(base[2])))         # component of the row label rowids[row]
-            elif part in (".real", ".imag"):
-                roles.append(part[1:])
+            elif any(val is n_ or val == n_ for n_ in numbers):
+                roles.append(part[1:] if part in (".real", ".imag") else "value")      # rendered with a floating-point spec
             else:
-                roles.append("value")
+                roles.append("?")
         layouts.add(tuple(roles))
     real_l, cplx_l = (("label", 0), ("label", 1), "value"), (("label", 0), ("label", 1), "real", "imag")
     if w.v is True and not layouts:
         w.unknown("no term line")
+    elif w.v is True and any("?" in x for x in layouts):
+        w.unknown({"fields of a term line that are not understood": [list(map(str, x)) for x in sorted(layouts, key=str)]})
     elif w.v is True and not layouts <= {real_l, cplx_l}:
         w.bad({"fields of a term line": [list(map(str, x)) for x in sorted(layouts, key=str)], "expected": "row grid, row dof, real part[, imaginary part]"})
     # ---- reader: fields consumed
@@ -1898,6 +2044,7 @@ def _dmig_layout(ctx, E, Er, terms, prim, wd, rd):
                     r.bad({"key searched": f"{ka} * id + {kb} * dof", "keys of the index": f"{aa} * id + {ab} * dof"}, p_.node)
     if r.v is True and not (seen["real"] and seen["complex"]):
         r.unknown({"entries stored from real cards": seen["real"], "from complex cards": seen["complex"]})
+    _dmig_membership(ctx, Er, prim, rd)
     w.report(ctx, "wtdmig: a term is one continuation line of 16-character fields: row grid, row dof, real part[, imaginary part]", wd)
     r.report(ctx, "rddmig: the fields taken from a column card (column grid / dof, then row grid, row dof, real, imaginary part of each term) are the fields "
                   "wtdmig writes there, and the key searched is formed like the keys of the index it is searched in", rd)
@@ -2121,6 +2268,7 @@ def r4_sequence_coverage(ctx):
     """writers that cut a sequence into lines / THRU items: every element is written exactly once, in order, and every template has as
     many fields as it is given values"""
     _nasints(ctx)
+    _nasints_callers(ctx)
     # THRU compression: the public writers named by the property, and every other public writer in whose code (own body, nested functions,
     # helpers) a loop emits "THRU" between elements of a sequence it is given
     m = ctx.src.mod(BULK)
@@ -2279,6 +2427,70 @@ def _nasints(ctx):
     _tiling(ctx, E, q, ints, fn)
 
 
+def _nasints_callers(ctx):
+    """writers that put the head of a card on the line and hand the integers to wtnasints(f, start, ints): `start` must be the field that follows
+    what they wrote, i.e. the text already on the line is 8 * (start - 1) columns wide"""
+    m = ctx.src.mod(BULK)
+    named = ("wtcsuper", "wtextrn")                 # the callers the property names; others are checked when they can be evaluated
+    for q, fn in publics(m, "wt").items():
+        if q == "wtnasints" or not any(isinstance(n, ast.Name) and n.id == "wtnasints" for g in [fn] + reach(m, fn) for n in ast.walk(g)):
+            continue
+        inst = f"{q}: the text written before wtnasints(f, start, ...) fills the fields 1 .. start-1 of the line"
+        try:
+            E = M.Engine(m, fn, follow=helpers_of(m), max_states=96)
+            E.run()
+        except Unsupported as ex:
+            if q in named:
+                ctx.error(inst, fn, str(ex))
+            continue
+        ctx.src.funcs_consulted.add(f"{BULK}:{q}")
+        v = V()
+        ncalls = 0
+        for s in E.finals:
+            if s.status not in ("run", "return"):
+                continue
+            col, known = Lin(), True
+            for e in s.events:
+                if e.kind != "call":
+                    continue
+                if is_write(e):
+                    text = e.d["args"][0]
+                    if not isinstance(text, S):
+                        known = False
+                        continue
+                    lines, term = M.split_lines(text.p)
+                    if term:
+                        col, known = Lin(), True
+                        continue
+                    w = E.width(S(lines[-1])) if lines else Lin()
+                    if w is None:
+                        known = False
+                    elif len(lines) > 1:
+                        col, known = w, True
+                    elif known:
+                        col = col + w
+                elif (e.d["name"] or "").split(".")[-1] == "wtnasints" and len(e.d["args"]) >= 2:
+                    ncalls += 1
+                    v.at(e.node)
+                    start = e.d["args"][1]
+                    if not known or not M.is_int_const(lin(start)) or not isinstance(col, Lin):
+                        v.unknown({"start": show(start), "columns written before": show(col) if known else "not known"}, e.node)
+                    else:
+                        r_, w_ = _differs(col - (lin(start) - 1).scale(8), e.facts, limit=12)
+                        if r_ is True:
+                            v.bad({"start": show(start), "columns already on the line": show(col), "expected": 8 * (M.ival(lin(start)) - 1)}, e.node)
+                        elif r_ is None:
+                            v.unknown({"start": show(start), "columns already on the line": show(col)}, e.node)
+                    col, known = Lin(), True          # wtnasints ends the line
+                elif _uses_file(e):
+                    known = False
+        if ncalls == 0:
+            if q in named:
+                ctx.error(inst, fn, "no call of wtnasints is reached")
+            continue
+        v.report(ctx, inst, fn)
+
+
 def _all_fields(items):
     for it in items:
         if it[0] == "field":
@@ -2294,7 +2506,7 @@ def _differs(d, facts, limit=24):
     if lin(d).is_const():
         return True, {"always": f"the two differ by {lin(d).c}"}
     syms = M.free_symbols(d)
-    if _related(syms):
+    if _related(syms, facts):
         # the length / value of something computed from another of the quantities by a call this engine does not know: it may well be tied to it, so
         # values chosen independently are not a counter-example
         return None, None
@@ -2307,14 +2519,19 @@ def _differs(d, facts, limit=24):
 def _witness(symbols, facts, bad, **kw):
     """M.find_witness over independent quantities only: the length of something an unknown call returned is not free to choose"""
     symbols = list(symbols)
-    if _related(symbols):
+    if _related(symbols, facts):
         return None
     return M.find_witness(symbols, facts, bad, **kw)
 
 
-def _related(syms):
+def _related(syms, facts=()):
     """two of the quantities are tied in a way the engine does not know: one is a property of the result of an opaque call on the other"""
     syms = list(syms)
+    # the value a variable has after a loop is a fresh symbol; when no test the code makes (loop condition, counter direction) says anything
+    # about it, what the loop can leave there is simply not modelled, and it is not free to choose
+    for a in syms:
+        if isinstance(a, tuple) and a[:1] == ("sym",) and "@L" in a[1] and a[1].endswith("'") and not any(M.mentions(t, a) for t, _ in facts):
+            return True
 
     def root(v):
         while isinstance(v, tuple) and v[:1] in (("elem",), ("slice",), ("attr",)):
@@ -2367,6 +2584,7 @@ def _tiling(ctx, E, q, seq, fn):
         wp = Lin()          # written up to (exclusive)
         loop_entry = {}
         for_loops = {}
+        loop_info = {}
         for e in s.events:
             if e.kind == "while":
                 # induction hypothesis: at the head of the loop the counter equals the position written so far
@@ -2402,18 +2620,37 @@ def _tiling(ctx, E, q, seq, fn):
                 elif r is None:
                     v.unknown({"the loop starts at": show(it[1]), "written up to": show(wp)}, e.node)
                 for_loops[e.d["loop"]] = (e.d["target"].scale(stride) + off, it)
+                loop_info[e.d["loop"]] = {"before": wp, "target": tat, "iter": e.d["iter"], "facts": e.facts}
                 wp = e.d["target"].scale(stride) + off
             elif e.kind == "loopend" and e.d["loop"] in for_loops:
                 k_, it = for_loops[e.d["loop"]]
-                # the next pass starts one stride on; the last pass may stop at the end of the sequence (what is written is clamped there)
-                want = M.mk_min([k_ + it[3], it[2], N], e.facts)
+                info = loop_info[e.d["loop"]]
+                # if there is a next pass it starts one stride on: that must be where this pass stopped
+                want = k_ + it[3]
                 wp = M.mk_min([wp, N], e.facts)
-                r, w = _differs(wp - want, e.facts)
+                if M.is_int_const(lin(it[3])) and M.ival(lin(it[3])) > 1 and M._divisible(lin(it[2]) - want, M.ival(lin(it[3]))):
+                    # the positions and the end of the range are congruent modulo the stride: a next pass leaves a whole stride
+                    nxt = e.facts + ((("cmp", "GtE", lin(it[2]) - want, lin(it[3])), True),)
+                else:
+                    nxt = e.facts + ((("not", ("cmp", "GtE", want, lin(it[2]))), True),)
+                r, w = _differs(wp - want, nxt)
                 if r is True:
                     v.bad({"one pass writes up to": show(wp), "the next pass starts at": show(want), "differ for": w}, e.node)
                 elif r is None:
                     v.unknown({"one pass writes up to": show(wp), "the next pass starts at": show(want)}, e.node)
-                wp = M.mk_min([lin(it[2]), N], e.facts)           # by induction the passes cover [lo, min(hi, length))
+                info["pass"] = wp
+                # after the loop: where the last pass stopped - the pass of the last value of the range, lo + k * floor((hi - 1 - lo) / k)
+                oit = info["iter"]
+                lo_t, hi_t, k_t = lin(oit[1]), lin(oit[2]), M.ival(oit[3])
+                last_t = lo_t + M.floordiv(hi_t - 1 - lo_t, k_t).scale(k_t)
+                ran = info["facts"]
+                after = M.subst(wp, info["target"], last_t)
+                after = M.mk_min([after, N], ran) if isinstance(after, Lin) else after
+                info["after"] = after
+                whole = M.mk_min([lin(it[2]), N], e.facts)           # the passes cover [lo, min(hi, length)) when the last one is clamped there
+                r, w = _differs(after - whole, ran)
+                wp = whole if r is False else after
+                info["exact"] = r is False
             elif e.kind == "loopend" and e.d["loop"] in loop_entry:
                 nm = loop_entry[e.d["loop"]]
                 r, w = _differs(lin(e.d["env"][nm]) - wp, e.facts)
@@ -2423,6 +2660,12 @@ def _tiling(ctx, E, q, seq, fn):
                     v.unknown({"loop counter after one pass": show(e.d["env"][nm]), "written up to": show(wp)}, e.node)
             elif e.kind == "loopexit" and e.d["loop"] in loop_entry:
                 wp = lin(e.d["env"][loop_entry[e.d["loop"]]])
+            elif e.kind == "loopexit" and e.d["loop"] in loop_info and "ran" in e.d:
+                info = loop_info[e.d["loop"]]
+                if e.d["ran"] is False:
+                    wp = info["before"]                  # the range was empty: nothing was written by the loop
+                elif "after" in info:
+                    wp = info["after"]
             elif e.kind in ("format", "call"):
                 rec = _int_records(E, e, seq, N)
                 if rec is None:
@@ -2559,15 +2802,18 @@ def _has_thru(v):
 RULES = [
     ("C13-R1", r1_templates, 34),
     ("C13-R2", r2_nonempty_vector, 4),
-    ("C13-R3", r3_reader_strides, 12),
-    ("C13-R4", r4_sequence_coverage, 7),
+    ("C13-R3", r3_reader_strides, 13),
+    ("C13-R4", r4_sequence_coverage, 9),
 ]
 LEVEL = "other"
 EXPLANATION = ("Static: every hard-wired or default floating-point format in the bulk writers is checked to fit its field over all finite doubles "
                "(E5 width bound); wttabled1/wtgrids line templates obey the 8 + n*W card grid (case split on the rendered width of the user format) and "
                "the leftover arithmetic keeps ENDT on the card; vectorised writes that can receive an empty vector are guarded (derived from vecwrite's "
-               "own summary); typed readers index the fields the writers fill; the DMIG half-storage test matches the reader's mirror and the reader "
-               "stores entries at (row position, column position); list writers (wtnasints, and the THRU loops reached from wtset, wtspoints, wtxset1) "
+               "own summary); typed readers index the fields the writers fill (TABLED1 pairs, GRID columns and the card order of the vectors wtgrids "
+               "passes, the fields of a DMIG column card - one term per continuation line, row grid / dof / real / imaginary part where rddmig takes "
+               "them, keys formed like the index they are searched in, and searched in an index built from the collection keys of that kind were put into); the DMIG half-storage test matches the reader's mirror, no non-zero term is "
+               "skipped and the reader stores entries at (row position, column position); the head a caller of wtnasints writes fills the fields before "
+               "`start`; list writers (wtnasints, and the THRU loops reached from wtset, wtspoints, wtxset1) "
                "emit every element exactly once and give every template as many values as it has fields.  All rules are bound to the public entry "
                "points and follow calls (helpers, nested functions, generators, partial / lambda callbacks); they are decided on symbolic values "
                "(string templates, linear integer forms with floor division, path facts) computed by verifier/c13_sem.py, not on source text; what a "
@@ -2575,8 +2821,9 @@ EXPLANATION = ("Static: every hard-wired or default floating-point format in the
 MANIFEST = {
     "text": "Partial claim decided statically: (R1) width of every floating-point spec over the whole double range, card-grid arithmetic of wttabled1/wtgrids "
             "templates, leftover-pair range, last-line head, ENDT; (R2) non-empty-vector contract of writer.vecwrite at its call sites; (R3) reader strides vs "
-            "writer layout, DMIG symmetry test vs reader mirror, entry orientation, rows written per column, D exponent; (R4) wtnasints line wrapping (field "
-            "count = value count, capacity, consecutive slices) and the THRU cursor of wtset / wtspoints / wtxset1 (through whatever helper holds the loop). Known findings (default/hard-wired formats narrower "
+            "writer layout (TABLED1, GRID incl. the card order of the vectors, DMIG column cards field by field, keys searched where they were collected), DMIG symmetry test vs reader mirror, entry "
+            "orientation, rows written per column, non-zero terms never skipped, D exponent; (R4) wtnasints line wrapping (field "
+            "count = value count, capacity, consecutive slices), the head written by its callers (wtcsuper, wtextrn, ...) fills the fields before `start`, and the THRU cursor of wtset / wtspoints / wtxset1 (through whatever helper holds the loop). Known findings (default/hard-wired formats narrower "
             "than the value domain) are listed in known_findings.json. Not decided: run detection of _find_sequence on data, text wrapping of SET lines, "
             "DMIG index ordering on data, precision of values, uset2bulk/bulk2uset coordinate chains.",
     "note": "Trusted: CPython ast; Python format-spec semantics ('E' exponents have at least two digits and three below 1e-99/above 1e+99). Assumed: the "
